@@ -2,19 +2,24 @@
 
   MC   : Coin.tla (two-party protocol, one action per move, adversarial peer with a message alphabet covering every
          residue and the first values outside every range, channel closed at any moment) and CoinN.tla (n-party
-         protocol over joint verifiable secret sharing, synchronous rounds, deviating parties) are checked
-         exhaustively by TLC in small groups: order (no share revealed before the commitment is stored), agreement,
-         output = sum of the committed shares, rejection / reconstruction on a non-matching opening.  Negative
-         controls: the protocol that opens early must violate the order invariant; "never done" / "never rejects"
-         must be violated (vacuity).
+         protocol over joint verifiable secret sharing in synchronous rounds, one party deviating in every way of a
+         deviation alphabet or sitting behind faulty private links) are checked exhaustively by TLC in small groups:
+         order (no share revealed before the commitment is stored), agreement, output = sum of the committed shares
+         of the qualified parties, rejection / reconstruction on a non-matching opening.  Negative controls: the
+         protocol that opens early must violate the order invariant, the n-party protocol without the rule "an
+         unanswered complaint disqualifies" must violate agreement; "never done", "never rejects", "never
+         reconstructs", "never disqualifies" must be violated (vacuity, thorough tier).
   A    : every maximal schedule of two honest parties (printed by TLC, GEN_Coin_hh) is executed on two real
          Flip_twoparty calls (one thread per party, baton scheduling).
   B    : the real code against an adversarial harness peer: both roles x C05 catalogue on commitment and opening x
          three timings (lazy / everything in advance / right after the library's commitment) x coins; withheld
-         messages; adaptive peers (mirror, steering the outcome after seeing the share).  n-party: real Flip() on
-         real RBC objects over the in-memory transport, n = 2..7, deviating and crashing parties.
-  both : every log is validated by TLC against CoinTrace.tla / CoinNTrace.tla; the log is ordered by the sequence
-         numbers of the harness-owned streams, so a share written before the commitment was read is not a behaviour.
+         messages; adaptive peers (mirror, steering the outcome after seeing the share).  n-party: real Flip() of
+         every party on real RBC objects over an in-memory transport (baton threads, virtual clock), n = 2..7,
+         parties that deviate (the library's own faulty mode, crash at the start / before opening, faulty private
+         links, a harness party that walks through the protocol and deviates at will).
+  both : every log is validated by TLC against CoinTrace.tla / CoinNTrace.tla; the two-party log is ordered by the
+         sequence numbers of the harness-owned streams, so a share written before the commitment was read is not a
+         behaviour; the n-party log carries the commitments a party has stored when its share goes on the wire.
 """
 import os, json, sys, time, concurrent.futures as cf
 import vlib, tracecheck
@@ -22,10 +27,17 @@ from vlib import SPEC, OUT
 
 PID = "C17"
 
-MC2_QUICK = ["MC_Coin_q_adv", "MC_Coin_q_hh"]
-MC2_THOROUGH = MC2_QUICK + ["MC_Coin_hh", "MC_Coin_adv0", "MC_Coin_adv1", "MC_Coin_adv11", "MC_Coin_adv11b", "MC_Coin_adv47"]
-MC2_MUSTFAIL = {"MC_Coin_early": "C17_Order", "MC_Coin_vac1": "NeverDone", "MC_Coin_vac2": "NeverRejectsOpening"}
+MC_QUICK = [("MC_Coin", "MC_Coin_q_adv"), ("MC_Coin", "MC_Coin_q_hh"), ("MC_CoinN", "MC_CoinN_q3"), ("MC_CoinN", "MC_CoinN_q3t")]
+MC_THOROUGH = MC_QUICK + [("MC_Coin", c) for c in ("MC_Coin_hh", "MC_Coin_adv0", "MC_Coin_adv1", "MC_Coin_adv11", "MC_Coin_adv11b", "MC_Coin_adv47")] + \
+              [("MC_CoinN", c) for c in ("MC_CoinN_3", "MC_CoinN_4", "MC_CoinN_4t", "MC_CoinN_5t2")]
+# negative controls and vacuity guards: TLC must find a counterexample to the named invariant
+MUSTFAIL_QUICK = {"MC_Coin_early": ("MC_Coin", "C17_Order"), "MC_CoinN_norule": ("MC_CoinN", "Holds")}
+MUSTFAIL_THOROUGH = dict(MUSTFAIL_QUICK, **{"MC_Coin_vac1": ("MC_Coin", "NeverDone"), "MC_Coin_vac2": ("MC_Coin", "NeverRejectsOpening"),
+                                            "MC_CoinN_vac1": ("MC_CoinN", "NeverRecon"), "MC_CoinN_vac2": ("MC_CoinN", "NeverDisq")})
 GEN_GRP = [23, 11, 2, 3]
+# the stable key of the defect found in /repo (see notes/C17.md): JareckiLysyanskayaRVSS::Share keeps a dealer qualified
+# that left a complaint unanswered, the complainer then reconstructs with its own bad share
+KEY_UNANSWERED = "np-agreement:unanswered-complaint-keeps-dealer-qualified"
 
 def classify2(ev, r):
     if r.violation and "Invariant" in r.violation:
@@ -39,10 +51,20 @@ def classify2(ev, r):
         return "2p-return-" + ("exception" if "exc" in ev else ("accepted" if ev.get("res") else "rejected"))
     return "2p-" + k
 
+def classify_n(ev, r):
+    if r.violation and "Invariant" in r.violation:
+        return "np-invariant:" + r.violation.split()[2]
+    k = ev.get("e", "?")
+    if k == "Open":
+        return "np-share-revealed-state"
+    if k == "Out":
+        return "np-output-" + ("exception" if "exc" in ev else ("coin" if ev.get("res") else "failure"))
+    return "np-" + k
+
 def drive(exe, args, what):
-    rc, so, se, _ = vlib.run_driver(exe, args, timeout=1500)
+    rc, so, se, _ = vlib.run_driver(exe, args, timeout=2400)
     if rc != 0:
-        raise vlib.Infra("drv_coin %s failed: %s %s" % (what, so[-400:], se[-400:]))
+        raise vlib.Infra("drv_coin %s failed (rc %s): %s %s" % (what, rc, so[-400:], se[-400:]))
     try:
         return json.loads(so.strip().splitlines()[-1])
     except Exception:
@@ -52,30 +74,26 @@ def outcome(x):
     r = [e for e in x if e["e"] == "Ret"]
     return tuple(("exc" if "exc" in e else ("ok" if e["res"] else "rej")) for e in r)
 
-def mc_jobs(tier):
-    names = (MC2_QUICK if tier == "quick" else MC2_THOROUGH) + sorted(MC2_MUSTFAIL)
-    return [("MC_Coin", c) for c in names]
-
 def run_mc(job, tier):
     mod, c = job
     return job, vlib.tlc(mod, c + ".cfg", workers=3 if tier == "quick" else 6, timeout=900 if tier == "quick" else 3000, xmx="6g")
 
-def account_mc(ck, job, r):
+def account_mc(ck, job, r, mustfail):
     mod, c = job
     if r.error:
         raise vlib.Infra("TLC %s: %s" % (c, r.error))
     ck.add_tlc(c, r)
-    must = MC2_MUSTFAIL.get(c)
+    must = mustfail.get(c)
     if must:
-        if not (r.violation and must in r.violation):
-            raise vlib.Infra("negative control %s: TLC was expected to violate %s but reported %r" % (c, must, r.violation))
-        ck.part(c, expected_violation=must)
+        if not (r.violation and must[1] in r.violation):
+            raise vlib.Infra("negative control %s: TLC was expected to violate %s but reported %r" % (c, must[1], r.violation))
+        ck.part(c, expected_violation=must[1])
     elif r.violation:
         ck.violation("model:" + c, "%s (%s): %s" % (mod, c, r.violation),
                      replay_path=os.path.join(OUT, "tlc", "%s-%s.cfg.log" % (mod, c)))
 
 class Acc:
-    """collects what tracecheck.validate reports, so that validations can run side by side (merged by the main thread)"""
+    """collects what a validation reports, so that validations can run side by side (merged by the main thread)"""
     def __init__(self):
         self.cov = {"states": 0, "transitions": 0}; self.traces = 0; self.viol = []
     def add_traces(self, n):
@@ -92,10 +110,35 @@ def validate_bg(ex, tag, module, cfg, execs, classify, chunks):
     acc = Acc()
     return acc, ex.submit(tracecheck.validate, acc, PID, tag, module, cfg, execs, classify, chunks)
 
+# --------------------------------------------------------------------------------------------------
+# two-party protocol
+def gen_schedules():
+    """all maximal schedules of two honest parties, printed by TLC; the list only depends on the spec files and is
+    kept between runs (key: their content)"""
+    files = ["Prims.tla", "Pedersen.tla", "Coin.tla", "MC_Coin.tla", "GEN_Coin_hh.cfg"]
+    key = vlib.sha(*[vlib.rd(os.path.join(SPEC, f)) for f in files])
+    cp = os.path.join(vlib.VERIF, "out", PID, "schedules-%s.json" % key)
+    if os.path.exists(cp):
+        try:
+            return [tuple(x) for x in json.load(open(cp))], None
+        except Exception:
+            pass
+    r = vlib.tlc("MC_Coin", "GEN_Coin_hh.cfg", workers=2, timeout=600, xmx="2g")
+    if r.error or r.violation:
+        raise vlib.Infra("TLC generator GEN_Coin_hh: %s" % (r.error or r.violation))
+    scheds = sorted(set(tuple(h["sched"]) for h in r.printed if isinstance(h, dict) and "sched" in h))
+    if len(scheds) < 10:
+        raise vlib.Infra("generator printed only %d schedules" % len(scheds))
+    os.makedirs(os.path.dirname(cp), exist_ok=True)
+    with open(cp + ".tmp", "w") as f:
+        json.dump([list(x) for x in scheds], f)
+    os.rename(cp + ".tmp", cp)
+    return scheds, r
+
 def two_party(ck, ex, exe, tier, seed):
     """returns a function that waits for the validations and does the accounting"""
     d = os.path.join(OUT, PID); os.makedirs(d, exist_ok=True)
-    gen = ex.submit(vlib.tlc, "MC_Coin", "GEN_Coin_hh.cfg", workers=2, timeout=600, xmx="2g")
+    gen = ex.submit(gen_schedules)
     # ---- B1: two honest parties, random schedules and coins (thorough: every coin 4-tuple in the group of order 5)
     tB = os.path.join(d, "trace-hh-rand.ndjson")
     if tier == "quick":
@@ -108,7 +151,6 @@ def two_party(ck, ex, exe, tier, seed):
             f.write(open(tB2).read())
         os.unlink(tB2)
     exB = tracecheck.split_executions(tB)
-    accB, fB = validate_bg(ex, "hh-rand", "CoinTrace", "CoinTrace.cfg", exB, classify2, 1 if tier == "quick" else 6)
     # ---- B2: adversarial peer
     tC = os.path.join(d, "trace-adv.ndjson")
     if tier == "quick":
@@ -123,32 +165,30 @@ def two_party(ck, ex, exe, tier, seed):
     exC = tracecheck.split_executions(tC)
     accC, fC = validate_bg(ex, "adv", "CoinTrace", "CoinTrace.cfg", exC, classify2, 2 if tier == "quick" else 10)
     # ---- A: all schedules of two honest parties, from TLC
-    r = gen.result()
-    if r.error or r.violation:
-        raise vlib.Infra("TLC generator GEN_Coin_hh: %s" % (r.error or r.violation))
-    ck.add_tlc("GEN_Coin_hh", r)
-    scheds = sorted(set(tuple(h["sched"]) for h in r.printed if isinstance(h, dict) and "sched" in h))
-    if len(scheds) < 10:
-        raise vlib.Infra("generator printed only %d schedules" % len(scheds))
+    scheds, r = gen.result()
+    if r is not None:
+        ck.add_tlc("GEN_Coin_hh", r)
+    else:
+        ck.part("GEN_Coin_hh", cached=True)
     reps = 1 if tier == "quick" else 12
     sp = os.path.join(d, "schedules.ndjson")
     vlib.write_ndjson(sp, [dict(grp=GEN_GRP, sched=list(s), coins=None, seed=seed * 100 + k) for k in range(reps) for s in scheds])
     tA = os.path.join(d, "trace-hh-tlc.ndjson")
     drive(exe, ["hh", sp, tA], "hh")
     exA = tracecheck.split_executions(tA)
-    accA, fA = validate_bg(ex, "hh-tlc", "CoinTrace", "CoinTrace.cfg", exA, classify2, 1 if tier == "quick" else 6)
+    # the two kinds of honest executions are validated together (one JVM start less in the quick tier)
+    accA, fA = validate_bg(ex, "hh", "CoinTrace", "CoinTrace.cfg", exA + exB, classify2, 1 if tier == "quick" else 10)
 
     def finish():
-        nA, nB, nC = fA.result(), fB.result(), fC.result()
-        for a in (accA, accB, accC):
+        nA, nC = fA.result(), fC.result()
+        for a in (accA, accC):
             a.merge(ck)
         ck.add_cases("two-party-all-schedules", len(exA),
                      [json.dumps([e["i"] for e in x if e["e"] in ("W", "R")]) for x in exA if outcome(x) == ("ok", "ok")])
-        ck.part("two-party-all-schedules", schedules=len(scheds), accepted_by_tlc=nA)
+        ck.part("two-party-all-schedules", schedules=len(scheds), accepted_by_tlc_with_random=nA)
         ck.sample({"two_party_honest_execution": [{k: v for k, v in e.items() if k not in ("src",)} for e in exA[0]]})
         ck.add_cases("two-party-honest-random", len(exB),
                      [json.dumps([x[0]["grp"], [e["coins"] for e in x if e["e"] == "W" and e["coins"]]]) for x in exB if outcome(x) == ("ok", "ok")])
-        ck.part("two-party-honest-random", accepted_by_tlc=nB)
         keys, byout = set(), {}
         for x in exC:
             o = outcome(x)
@@ -164,33 +204,171 @@ def two_party(ck, ex, exe, tier, seed):
             raise vlib.Infra("adversarial executions do not cover accept/reject/abort: %s" % byout)
     return finish
 
+# --------------------------------------------------------------------------------------------------
+# n-party protocol
+def tv_n(tag, execs):
+    d = os.path.join(OUT, PID, "tv"); os.makedirs(d, exist_ok=True)
+    tf = os.path.join(d, tag + ".ndjson")
+    vlib.write_ndjson(tf, [e for x in execs for e in x] + [{"e": "End"}])
+    r = vlib.tlc("CoinNTrace", "CoinNTrace.cfg", workers=1, env={"TRACE": tf}, timeout=1800, xmx="4g")
+    if r.error:
+        raise vlib.Infra("trace validation CoinNTrace on %s: %s" % (tf, r.error))
+    return r
+
+def validate_n(tag, execs, depth=0):
+    """CoinNTrace.tla computes the rounds both for the protocol as designed and without the rule 'an unanswered
+    complaint disqualifies'; an execution must match one of them.  TLC prints which executions matched only the
+    second and whether the logged outputs then violate the property.  Returns (accepted, results, states) with
+    results = list of (execution, kind, event, tlcresult), kind in norule-no-effect / norule-disagreement / mismatch."""
+    acc, res, states = 0, [], 0
+    rest, rnd = list(execs), 0
+    while rest:
+        r = tv_n("%s-%d-%d" % (tag, depth, rnd), rest); rnd += 1
+        states += r.distinct
+        if r.ok():
+            starts, n = {}, 1
+            for k, x in enumerate(rest):
+                starts[n] = k; n += len(x)
+            notes = [nt for pr in r.printed if isinstance(pr, dict) for nt in pr.get("notes", [])]
+            for nt in notes:
+                if nt["at"] not in starts:
+                    raise vlib.Infra("CoinNTrace reported an unknown execution start %r" % nt)
+                res.append((rest[starts[nt["at"]]], "norule-disagreement" if nt["disagree"] else "norule-no-effect", {}, r))
+            acc += len(rest)
+            break
+        if depth > 0:
+            raise vlib.Infra("prefix of a rejected log was rejected as well (%s)" % tag)
+        pos = tracecheck._position(r)
+        seen, idx = 0, len(rest) - 1
+        for k, x in enumerate(rest):
+            if seen + len(x) >= pos:
+                idx = k; break
+            seen += len(x)
+        bad = rest[idx]
+        r1 = tv_n("%s-%d-one" % (tag, rnd), [bad])
+        if r1.ok():
+            raise vlib.Infra("trace rejection did not repeat on the single execution (%s)" % tag)
+        p1 = tracecheck._position(r1)
+        ev = bad[p1 - 1] if 0 < p1 <= len(bad) else {}
+        res.append((bad, "mismatch", ev, r1))
+        states += r1.distinct
+        if idx > 0:       # the executions before it were accepted; run them again to learn which model they needed
+            a2, r2, s2 = validate_n(tag + "-pre%d" % rnd, rest[:idx], depth + 1)
+            acc += a2; res += r2; states += s2
+        rest = rest[idx + 1:]
+    return acc, res, states
+
+def n_party(ck, ex, exe, tier, seed):
+    d = os.path.join(OUT, PID); os.makedirs(d, exist_ok=True)
+    nexec = 60 if tier == "quick" else 1200
+    nchunks = 2 if tier == "quick" else 12
+    def rec(k):
+        tp = os.path.join(d, "trace-np-%d.ndjson" % k)
+        drive(exe, ["np", seed * 100 + k, nexec // nchunks, tp], "np")
+        execs = tracecheck.split_executions(tp)
+        return execs, validate_n("np-%d" % k, execs)
+    futs = [ex.submit(rec, k) for k in range(nchunks)]
+
+    def finish():
+        allx, nacc, keys, scen = [], 0, set(), {}
+        buckets = {"norule-no-effect": [], "norule-disagreement": [], "mismatch": []}
+        for fu in futs:
+            execs, (acc, res, states) = fu.result()
+            allx += execs; nacc += acc
+            ck.cov["states"] += states; ck.cov["transitions"] += states
+            for item in res:
+                buckets[item[1]].append(item)
+        for x in allx:
+            r0 = x[0]
+            outs = sorted((e["i"], e["res"], e["coin"]) for e in x if e["e"] == "Out")
+            scen[r0["src"]["scen"]] = scen.get(r0["src"]["scen"], 0) + 1
+            if any(o[1] for o in outs):
+                keys.add(json.dumps([r0["n"], r0["t"], r0["poly"], [[dv["kind"], dv["sd"], dv["complain"], dv["answer"], dv["open"]] for dv in r0["dev"]]]))
+        nacc -= len(buckets["norule-disagreement"])       # a behaviour of the model, but of one that breaks the property
+        ck.add_traces(nacc)
+        ck.add_cases("n-party-executions", len(allx), keys)
+        ck.part("n-party-executions", accepted_by_tlc=nacc, scenarios=scen,
+                unanswered_complaint_dealer_stays_qualified_without_effect_on_the_coin=len(buckets["norule-no-effect"]),
+                unanswered_complaint_honest_parties_disagree=len(buckets["norule-disagreement"]))
+        for x in allx:
+            if x[0]["src"]["scen"] not in ("honest",) and x[0]["n"] <= 5:
+                ck.sample({"n_party_execution": [{k: v for k, v in e.items() if k != "stored"} for e in x]}); break
+        # the executions that are behaviours of neither model
+        for n, (bad, kind, ev, r) in enumerate(buckets["mismatch"]):
+            rp = os.path.join(d, "rejected-np-%d.ndjson" % n)
+            vlib.write_ndjson(rp, bad)
+            what = ("n-party: log of the real code is not a behaviour of CoinNTrace (n=%d t=%d scenario %s); %s; first unmatched event: %s" %
+                    (bad[0]["n"], bad[0]["t"], bad[0]["src"]["scen"], (r.violation or "").strip()[:160], json.dumps({k: v for k, v in ev.items() if k != "stored"})[:400]))
+            ck.violation(classify_n(ev, r), what, replay_path=rp)
+        # the defect: reported once, with the first execution as the replay artefact
+        if buckets["norule-disagreement"]:
+            # the plainest example first: fewest distinct coins, one deviating party, fewest parties
+            def plain(item):
+                x = item[0]
+                coins = set(e["coin"] for e in x if e["e"] == "Out" and e["res"])
+                return (len(coins), sum(1 for v in x[0]["dev"] if v["kind"] != "honest"), x[0]["n"])
+            bad = sorted(buckets["norule-disagreement"], key=plain)[0][0]
+            rp = os.path.join(d, "rejected-np-unanswered-complaint.ndjson")
+            vlib.write_ndjson(rp, bad)
+            dv = [(i, v["kind"], v["sd"], v["answer"], v["open"]) for i, v in enumerate(bad[0]["dev"]) if v["kind"] != "honest"]
+            outs = sorted((e["i"], e["coin"]) for e in bad if e["e"] == "Out" and e["res"])
+            what = ("n-party Flip(): honest parties return TRUE with different coins in %d of %d executions (first: n=%d t=%d, deviating %s, "
+                    "polynomials %s, outputs (party, coin) %s).  A dealer that sends a wrong/no share to one party and leaves its complaint "
+                    "unanswered stays in Qual (JareckiLysyanskayaRVSS::Share step 1(c) never checks that every complaint was answered); when its "
+                    "opening is then wrong or missing, the complainer interpolates with its own unverified share.  The execution is a behaviour "
+                    "of CoinN.tla only without the rule 'an unanswered complaint disqualifies', and violates C17_Outputs there." %
+                    (len(buckets["norule-disagreement"]), len(allx), bad[0]["n"], bad[0]["t"], dv, json.dumps([p["c"] for p in bad[0]["poly"]]), outs))
+            ck.violation(KEY_UNANSWERED, what, replay_path=rp)
+        if len(scen) < (4 if tier == "quick" else 8):
+            raise vlib.Infra("n-party executions cover too few scenarios: %s" % scen)
+    return finish
+
 def run(tier, seed):
     ck = vlib.Check(PID, tier, seed, "model_checking")
     exe = vlib.build_driver("drv_coin", extra_src=["seam_rng.cc"])
-    jobs = mc_jobs(tier)
-    with cf.ThreadPoolExecutor(max_workers=16) as ex, cf.ThreadPoolExecutor(max_workers=5 if tier == "quick" else 3) as mcex:
+    mustfail = MUSTFAIL_QUICK if tier == "quick" else MUSTFAIL_THOROUGH
+    jobs = (MC_QUICK if tier == "quick" else MC_THOROUGH) + [(m, c) for c, (m, _) in sorted(mustfail.items())]
+    with cf.ThreadPoolExecutor(max_workers=16) as ex, cf.ThreadPoolExecutor(max_workers=3) as mcex:
+        finn = n_party(ck, ex, exe, tier, seed)
         futs = [mcex.submit(run_mc, j, tier) for j in jobs]
         fin2 = two_party(ck, ex, exe, tier, seed)
         fin2()
         vlib.log("two-party conformance done at %.0fs" % (time.time() - ck.t0))
+        finn()
+        vlib.log("n-party conformance done at %.0fs" % (time.time() - ck.t0))
         for fu in futs:
             job, r = fu.result()
-            account_mc(ck, job, r)
+            account_mc(ck, job, r, mustfail)
     vlib.log("model checking done at %.0fs" % (time.time() - ck.t0))
-    ck.cov["rule"] = ("TLC BFS over bounded instances of Coin.tla (all shares, adversary alphabet = every residue and the first "
-                      "values outside each range, close at any moment); all TLC-generated schedules of two honest parties and seeded "
-                      "adversarial executions (role x catalogue mutation x position x timing x coins) run on the real Flip_twoparty and "
-                      "validated by TLC; an execution is non-trivial when the library returned; distinct = distinct I/O interleavings "
-                      "(honest), distinct coin tuples (random), distinct (role, mutation, position, timing, group, outcome) (adversarial)")
+    ck.cov["rule"] = ("TLC BFS over bounded instances of Coin.tla (all shares, adversary alphabet = every residue and the first values outside "
+                      "each range, close at any moment) and CoinN.tla (all share polynomials of one honest and of the deviating party x the "
+                      "deviation alphabet); all TLC-generated schedules of two honest parties, seeded adversarial two-party executions (role x "
+                      "catalogue mutation x position x timing x coins) and seeded n-party executions (n = 2..7, deviation scenarios) run on the "
+                      "real code and validated by TLC; an execution is non-trivial when a party returned (two-party) / returned a coin "
+                      "(n-party); distinct = distinct I/O interleavings (honest), coin tuples (random), (role, mutation, position, timing, "
+                      "group, outcome) (adversarial), (n, t, polynomials, deviations) (n-party)")
     ck.cov["exhaustive"] = False
     ck.assumptions += ["the textual encoding of numbers on the stream (base 62, one per line) is decoded by the harness with GMP; the library's reader is C11/C12 territory",
                        "an exception leaving Flip_twoparty counts as refusal; the spec allows it only when a message is missing or not a number",
-                       "tiny groups: the binding of the commitment is computational and not a property of the model (an unbounded peer that sees the share first can steer the coin - the 'steer' executions - which is exactly why the order is checked)"]
+                       "tiny groups: the binding of the commitment is computational and not a property of the model (an unbounded peer that sees the share first can steer the coin - the 'steer' executions - which is exactly why the order is checked); deviating parties of the n-party model do not equivocate on shares",
+                       "n-party: reliable broadcast (C14) and private links deliver within the time-outs, and the time-out of a private receive is shorter than that of a broadcast delivery (virtual clock: 2 s / 9 s)",
+                       "n-party order: observed as the commitments a party has stored when its first broadcast on the channel of Flip() leaves (projection of rvss->C_ik), not as wire order of the broadcast layer"]
     return ck.finish()
 
 def replay(path, seed):
     ck = vlib.Check(PID, "quick", seed, "model_checking")
     execs = tracecheck.split_executions(path)
-    tracecheck.validate(ck, PID, "replay", "CoinTrace", "CoinTrace.cfg", execs, classify=classify2, chunks=1)
-    ck.cov["rule"] = "replay of one recorded execution"
+    if execs and "n" in execs[0][0]:
+        acc, res, states = validate_n("replay", execs)
+        acc -= sum(1 for item in res if item[1] == "norule-disagreement")
+        ck.add_traces(acc); ck.cov["states"] += states; ck.cov["transitions"] += states
+        for bad, kind, ev, r in res:
+            if kind == "norule-disagreement":
+                ck.violation(KEY_UNANSWERED, "replayed n-party execution: honest parties return different coins (unanswered complaint, dealer stays qualified)", replay_path=path)
+            elif kind == "mismatch":
+                ck.violation(classify_n(ev, r), "replayed n-party execution is not a behaviour of CoinNTrace: %s" % json.dumps({k: v for k, v in ev.items() if k != "stored"})[:300], replay_path=path)
+    else:
+        tracecheck.validate(ck, PID, "replay", "CoinTrace", "CoinTrace.cfg", execs, classify=classify2, chunks=1)
+    ck.cov["rule"] = "replay of recorded executions"
+    ck.sample({"replayed": path})
     return ck.finish()
